@@ -191,3 +191,39 @@ func TestRaceCachePersistedMerges(t *testing.T) {
 	c.Close()
 	s.Close()
 }
+
+// Dirty limits with a lower level: the merger decides whether to wait for the persister from the
+// sums over top/mid/base/clean while writers and the persister change those stacks.
+func TestRaceDirtyLimits(t *testing.T) {
+	dir, _ := os.MkdirTemp("", "racework")
+	defer os.RemoveAll(dir)
+	so := moss.StoreOptions{CollectionOptions: moss.CollectionOptions{
+		MaxPreMergerBatches: 2, MaxDirtyOps: 3, MaxDirtyKeyValBytes: 64}}
+	s, c, err := moss.OpenStoreCollection(dir, so, moss.StorePersistOptions{NoSync: true})
+	if err != nil {
+		t.Fatal(err)
+	}
+	var wg sync.WaitGroup
+	for w := 0; w < 4; w++ {
+		wg.Add(1)
+		go func(w int) {
+			defer wg.Done()
+			for i := 0; i < 300; i++ {
+				b, err := c.NewBatch(0, 0)
+				if err != nil {
+					return
+				}
+				b.Set([]byte(fmt.Sprintf("w%d-s%d", w, i%29)), []byte("0123456789"))
+				b.Set([]byte(fmt.Sprintf("w%d-t%d", w, i%7)), []byte("y"))
+				c.ExecuteBatch(b, moss.WriteOptions{})
+				b.Close()
+				if i%5 == 0 {
+					c.Stats()
+				}
+			}
+		}(w)
+	}
+	wg.Wait()
+	c.Close()
+	s.Close()
+}
